@@ -301,6 +301,47 @@ func genJournalLoop(seed uint64) *Scenario {
 	return sc
 }
 
+// genCopyLoop: memory is paid for once (96-256 KiB), then copy / hash / log instructions of
+// nearly that length run on it repeatedly without expanding it, so that what each of them
+// allocates is covered by nothing but its own fee (rule C20.alloc, no-expansion budget).
+func genCopyLoop(seed uint64) *Scenario {
+	r := NewRNG(seed ^ 0x20c0)
+	sc := &Scenario{Prop: "C20", Seed: seed, Fork: pick(r, []string{"Berlin", "London", "Shanghai", "Cancun"}), Block: genBlock(r), Tracer: "rec", Profile: "copyloop"}
+	sc.Accounts = append(sc.Accounts, Account{Addr: eoaA, Balance: "0xffffffffffffffffffff"})
+	m := 96*1024 + r.Intn(160*1024)
+	m -= m % 32
+	u := func(v int) string { return fmt.Sprintf("0x%x", v) }
+	p := &Program{}
+	p.M = append(p.M, Macro{K: "op", Op: "MSTORE", A: []string{u(m - 32), "0x1"}})
+	var body []Macro
+	for i, k := 0, 1+r.Intn(3); i < k; i++ {
+		l := u(m - r.Intn(64))
+		src := u(r.Intn(3) * 17)
+		switch x := r.Intn(7); {
+		case x < 2:
+			who := pick(r, []string{contractAddr(0), contractAddr(1), eoaA, "0x00000000000000000000000000000000000000ee"})
+			body = append(body, Macro{K: "op", Op: "EXTCODECOPY", A: []string{who, "0x0", src, l}})
+		case x == 2:
+			body = append(body, Macro{K: "op", Op: "CODECOPY", A: []string{"0x0", src, l}})
+		case x == 3:
+			body = append(body, Macro{K: "op", Op: "CALLDATACOPY", A: []string{"0x0", src, l}})
+		case x == 4 && sc.Fork == "Cancun":
+			body = append(body, Macro{K: "op", Op: "MCOPY", A: []string{"0x0", "0x20", u(m - 64)}})
+		case x == 5:
+			body = append(body, Macro{K: "op", Op: "LOG0", A: []string{"0x0", l}})
+		default:
+			body = append(body, Macro{K: "op", Op: "KECCAK256", A: []string{"0x0", l}})
+		}
+	}
+	p.M = append(p.M, Macro{K: "loop", N: 2 + r.Intn(5), Body: body})
+	p.M = append(p.M, Macro{K: "term", Op: "STOP"})
+	q := &Program{M: []Macro{{K: "op", Op: "MSTORE", A: []string{"0x0", "0x1"}}, {K: "term", Op: "STOP"}}}
+	sc.Accounts = append(sc.Accounts, Account{Addr: contractAddr(0), Balance: "0x10", Nonce: 1, Code: p})
+	sc.Accounts = append(sc.Accounts, Account{Addr: contractAddr(1), Balance: "0x10", Nonce: 1, Code: q})
+	sc.Execs = []Exec{{Txs: []Tx{{Kind: "call", From: eoaA, To: contractAddr(0), Gas: 60000000}}}}
+	return sc
+}
+
 func genC03(seed uint64, tier string) *Scenario {
 	r := NewRNG(seed)
 	sc := &Scenario{Prop: "C03", Seed: seed, Fork: forkOrder[r.Intn(len(forkOrder))], Block: genBlock(r), Tracer: "rec"}
@@ -568,6 +609,9 @@ func init() {
 		Real:   real, Stub: stub, Gen: func(seed uint64, tier string) *Scenario {
 			if seed%160 == 7 {
 				return genJournalLoop(seed)
+			}
+			if seed%40 == 11 {
+				return genCopyLoop(seed)
 			}
 			sc := genC03(seed, tier)
 			sc.Prop = "C20"
